@@ -173,3 +173,48 @@ func FoldPair(t *rapid.T) (Val, Val) {
 	b := pre + pick(t, "foldB", g) + suf
 	return val.Str(pad(t, a)), val.Str(pad(t, b))
 }
+
+// NumericText draws a numeric-looking string assembled from parts (sign, leading zeros, digits up to and beyond
+// the int64 range, fraction, exponent, padding) instead of taken from the spelling pools: decimal integers and
+// "floating-point decimals or their exponential notation" in the manual's words. The label is str_int for a
+// spelling without fraction and exponent, str_float otherwise.
+func NumericText(t *rapid.T) (Val, string) {
+	sign := pick(t, "ntSign", []string{"", "", "-", "+"})
+	zeros := pick(t, "ntZeros", []string{"", "", "", "0", "00", "000000000000000000000"})
+	var digits string
+	switch kind(t, "ntDigits", 7) {
+	case 0, 1, 2:
+		digits = val.Int(int64(rapid.IntRange(0, 12).Draw(t, "ntSmall"))).S
+	case 3:
+		// around the int64 bounds: 922337203685477580x
+		digits = "922337203685477580" + val.Int(int64(rapid.IntRange(0, 9).Draw(t, "ntLast"))).S
+	case 4:
+		digits = pick(t, "ntPow", []string{"9007199254740992", "9007199254740993", "9007199254740991", "4294967296", "2147483648", "18446744073709551616", "99999999999999999999"})
+	default:
+		n := rapid.IntRange(1, 19).Draw(t, "ntLen")
+		b := make([]byte, n)
+		for i := range b {
+			b[i] = byte('0' + rapid.IntRange(0, 9).Draw(t, "ntDigit"))
+		}
+		digits = string(b)
+	}
+	form := kind(t, "ntForm", 9)
+	if form <= 3 {
+		return val.Str(pad(t, sign+zeros+digits)), "str_int"
+	}
+	frac := ""
+	switch {
+	case form <= 6:
+		frac = "." + pick(t, "ntFrac", []string{"", "0", "00", "5", "50", "25", "125", "000000000000000000001", "999999999999999999999", "1", "75"})
+	case form == 7:
+		// no integer digits at all: ".5"
+		zeros, digits = "", ""
+		frac = "." + pick(t, "ntFrac2", []string{"5", "0", "25", "000", "5000"})
+	}
+	exp := ""
+	if form >= 8 || (form >= 5 && rapid.Bool().Draw(t, "ntHasExp")) {
+		exp = pick(t, "ntE", []string{"e", "E"}) + pick(t, "ntESign", []string{"", "+", "-"}) +
+			pick(t, "ntExp", []string{"0", "1", "2", "3", "5", "10", "15", "18", "19", "20", "02", "007", "100", "308", "309", "324", "400"})
+	}
+	return val.Str(pad(t, sign+zeros+digits+frac+exp)), "str_float"
+}
